@@ -133,7 +133,10 @@ class LRTDP(Plans):
             return DictDistribution.uniform(max_actions)
 
         res.policy = policy
-        res.initial_value = sum([res.V[s0]*p for s0, p in mdp.initial_state_dist().items()])
+        res.initial_value = sum([
+            (0 if mdp.is_absorbing(s0) else res.V[s0])*p
+            for s0, p in mdp.initial_state_dist().items()
+        ])
 
         #clear result
         self.res = None
